@@ -34,7 +34,7 @@ START_SYNC = "nomt::beatree::allocator::Store::start_sync"
 FL_COMMIT = "nomt::beatree::allocator::free_list::FreeList::commit"
 PUSH_ENCODE = "nomt::beatree::allocator::free_list::FreeList::push_and_encode"
 ALLOCATE = "nomt::beatree::allocator::SyncAllocator::allocate"
-KEEP = "nomt::beatree::ops::update::leaf_updater::LeafUpdater::keep_up_to"
+KEEP = "nomt::beatree::ops::update::leaf_updater::LeafUpdater::keep_up_to"  # today's reporter; found by following the callback, not by name
 INGEST = "nomt::beatree::ops::update::leaf_updater::LeafUpdater::ingest"
 FIND_KEY = "nomt::beatree::ops::update::leaf_updater::BaseLeaf::find_key"
 BASE_LEAF = "nomt::beatree::ops::update::leaf_updater::BaseLeaf::"
@@ -47,8 +47,11 @@ def short(fn):
     return fn.split("::", 1)[1] if "::" in fn else fn
 
 
+_COUNTER = [COUNTER]
+
+
 def _on_counter(body, op):
-    return any(r.path and r.path[-1] == COUNTER for r in trace(body, op))
+    return any(r.path and _COUNTER[0] in r.path for r in trace(body, op))
 
 
 def call_origins(body, op, target, depth=0):
@@ -63,6 +66,10 @@ def call_origins(body, op, target, depth=0):
             elif r.obj is not None:
                 for a in r.obj.get("args", []):
                     out |= call_origins(body, a, target, depth + 1)
+        elif r.kind == "agg" and r.obj is not None:
+            # a wrapper type around the counter (`OccupancyCounter(AtomicUsize::new(n))`)
+            for a in r.obj.get("ops", []):
+                out |= call_origins(body, a, target, depth + 1)
     return out
 
 
@@ -85,6 +92,17 @@ def u1(facts, rep):
     # (i) what is reported
     ut = facts.body(UTIL)
     reported = False
+    # the counter is the field of bitbox `Shared` whose atomic load is reported as `occupied` (today: occupied_buckets)
+    _COUNTER[0] = COUNTER
+    for b in range(ut.n):
+        for s in ut.stmts(b):
+            if s["k"] == "assign" and s["rv"]["k"] == "agg" and s["rv"].get("name", "").endswith("HashTableUtilization") and "occupied" in s["rv"]["fields"]:
+                for r in trace(ut, s["rv"]["ops"][s["rv"]["fields"].index("occupied")]):
+                    if r.kind == "call" and str(r.what).endswith("::load") and r.obj is not None:
+                        for x in trace(ut, r.obj["args"][0]):
+                            hits = [p_ for p_ in (x.path or ()) if p_[1] == COUNTER[1]]
+                            if hits:
+                                _COUNTER[0] = hits[-1]
     for b in range(ut.n):
         for s in ut.stmts(b):
             if s["k"] == "assign" and s["rv"]["k"] == "agg" and s["rv"].get("name", "").endswith("HashTableUtilization"):
@@ -102,8 +120,8 @@ def u1(facts, rep):
         for s in op.stmts(b):
             if s["k"] == "assign" and s["rv"]["k"] == "agg" and s["rv"].get("name") == "nomt::bitbox::Shared":
                 fl = s["rv"]["fields"]
-                if COUNTER[0] in fl:
-                    inits.append((b, s["rv"]["ops"][fl.index(COUNTER[0])], s.get("ln")))
+                if _COUNTER[0][0] in fl:
+                    inits.append((b, s["rv"]["ops"][fl.index(_COUNTER[0][0])], s.get("ln")))
     n += 1
     if rep.check(len(inits) >= 1, "U1", short(OPEN), "initialises-counter", "DB::open no longer initialises the occupied-bucket counter", site=op.span, detail="Shared { occupied_buckets: .. }"):
         rec = [b for b, t in op.calls() if t.get("callee") == RECOVER]
@@ -138,7 +156,7 @@ def u1(facts, rep):
         for s in ps.stmts(b):
             if s["k"] == "assign" and s["rv"]["k"] == "bin" and s["rv"]["op"] in ("AddWithOverflow", "SubWithOverflow", "Add", "Sub"):
                 a, c_ = s["rv"]["a"], s["rv"]["b"]
-                if a["k"] in ("copy", "move") and not a["pl"].get("p") and ps.local_ty(a["pl"]["l"]) == "isize" and c_["k"] == "const" and c_.get("int") == "1":
+                if a["k"] in ("copy", "move") and ps.op_ty(a) == "isize" and c_["k"] == "const" and c_.get("int") == "1":
                     deltas.setdefault(a["pl"]["l"], []).append((b, "inc" if "Add" in s["rv"]["op"] else "dec", s.get("ln")))
     # the delta local is the one that reaches the fetch_add / fetch_sub
     applied = set()
@@ -345,12 +363,40 @@ def u4(facts, rep):
     import termination
 
     n = 0
-    k = facts.body(KEEP)
-    ks = short(KEEP)
-    params = _cb_params(k)
-    inv = _invocations(k, set(params))
+    # the function that reports: follow the callback of LeafUpdater::ingest through the functions it is handed to until one
+    # invokes it (today: ingest -> keep_up_to)
+    ing = facts.body(INGEST)
+    chain = [INGEST]
+    k, params = ing, set(_cb_params(ing))
+    passes_ok = bool(params)
+    for _hop in range(4):
+        inv = _invocations(k, params)
+        if inv or not params:
+            break
+        nxt = None
+        for b, t in k.calls():
+            c = t.get("callee") or ""
+            hb = facts.bodies.get(c)
+            if hb is None or hb.crate != "nomt" or k.is_cleanup(b):
+                continue
+            idx = [i + 1 for i, a in enumerate(t["args"]) if any(r.kind == "param" and r.what in params for r in trace(k, a))]
+            if idx:
+                nxt = (hb, set(idx), b)
+        if nxt is None:
+            passes_ok = False
+            break
+        # ingest (and every function on the way) always reaches the hand-on
+        bad = _must_pass(k, [0], {nxt[2]})
+        n += 1
+        rep.check(bad is None, "U4", short(k.id), "always-keeps-up-to", "%s can return (bb%s) without handing the changed key and the deleted-overflow callback on" % (short(k.id), bad), site=k.span, detail="every path calls %s" % short(nxt[0].id))
+        k, params = nxt[0], nxt[1]
+        chain.append(k.id)
+    ks = "beatree::ops::update::leaf_updater::LeafUpdater::keep_up_to" if k.id == KEEP else short(k.id)
+    inv = _invocations(k, params)
     n += 1
-    if not rep.check(bool(params) and bool(inv), "U4", ks, "reports-deleted-overflow", "LeafUpdater::keep_up_to no longer invokes its deleted-overflow callback: the overflow pages of replaced or deleted values are never released", site=k.span, detail="with_deleted_overflow(val) at %s" % [t.get("ln") for (_b, t) in inv]):
+    rep.check(passes_ok, "U4", short(INGEST), "passes-callback", "LeafUpdater::ingest does not hand its deleted-overflow callback to a function that invokes it: replaced overflow cells are dropped", site=ing.span, detail="callback handed along %s" % " -> ".join(short(c) for c in chain))
+    n += 1
+    if not rep.check(bool(params) and bool(inv), "U4", ks, "reports-deleted-overflow", "the deleted-overflow callback of LeafUpdater::ingest is never invoked: the overflow pages of replaced or deleted values are never released", site=k.span, detail="with_deleted_overflow(val) at %s" % [t.get("ln") for (_b, t) in inv]):
         return n
     invb = {b for (b, _t) in inv}
     lookups = [b for b, t in k.calls() if t.get("callee") == FIND_KEY]
@@ -403,17 +449,6 @@ def u4(facts, rep):
     n += 1
     with_cell = [t.get("ln") for (b, t) in inv if any(_derives(k, a, lambda r: r.kind == "call" and (str(r.what).startswith(BASE_LEAF) or str(r.what).startswith(LEAF_NODE))) for a in t["args"][1:])]
     rep.check(bool(with_cell), "U4", ks, "callback(cell)", "no invocation of the deleted-overflow callback in keep_up_to is given a cell read from the base leaf", site=inv[0][1].get("ln"), detail="with_deleted_overflow(base.cell(to).0) at %s" % with_cell)
-    # (b) ingest passes its callback on
-    ing = facts.body(INGEST)
-    ip = set(_cb_params(ing))
-    kc = [(b, t) for b, t in ing.calls() if t.get("callee") == KEEP]
-    n += 1
-    ok = bool(ip) and bool(kc) and all(any(r.kind == "param" and r.what in ip for a in t["args"] for r in trace(ing, a)) for (_b, t) in kc)
-    rep.check(ok, "U4", short(INGEST), "passes-callback", "LeafUpdater::ingest does not hand its deleted-overflow callback to keep_up_to: replaced overflow cells are dropped", site=ing.span, detail="self.keep_up_to(Some(&key), with_deleted_overflow)")
-    if kc:
-        bad = _must_pass(ing, [0], {b for (b, _t) in kc})
-        n += 1
-        rep.check(bad is None, "U4", short(INGEST), "always-keeps-up-to", "LeafUpdater::ingest can return (bb%s) without calling keep_up_to for the changed key" % bad, site=ing.span, detail="every path calls keep_up_to")
     # (c) the stage's callback stores the cell in what becomes LeafWorkerOutput.overflow_deleted
     sites = [(cid, cb) for (cid, cb, kk) in facts.callers().get(INGEST, []) if kk == "call" and "::tests::" not in cid and "::test" not in cid.split("::")[-1] and "::benches" not in cid]
     n += 1
